@@ -40,8 +40,13 @@ Judge(rec) ==
   LET B == BOf(rec)  T == TOf(rec)  Ms == Matchings(B, T) IN
   Chk(~rec.panicked, "panic", "the extractor panicked: " \o rec.stderr,
   IF rec.exit # 0
-  THEN Chk(~(Ms # {} /\ Unambiguous(B, T)), "match", "a scenario with exactly one possible matching was refused: " \o rec.stderr,
-       IF Ms = {} THEN OkV ELSE [v |-> "skip", cls |-> "", detail |-> ""])
+  THEN \* a refusal is due exactly when no valid matching exists; the tool's greedy selection also refuses some
+       \* matchable scenarios (recorded finding) - any other refusal of a matchable scenario is a violation
+       IF Ms = {} THEN OkV
+       ELSE LET ord == IF rec.order = 0 THEN [k \in DOMAIN B |-> k] ELSE [k \in DOMAIN B |-> Len(B) + 1 - k] IN
+            IF GreedyCanFail(B, T, ord)
+            THEN FailV("match", "[greedy-refuses-matchable] a scenario with a valid matching was refused: taking benefits in file order, each its closest-priced candidate set, leaves a later benefit without candidates: " \o rec.stderr)
+            ELSE FailV("match", "a scenario with a valid matching was refused, although taking benefits in file order, each the candidate set whose share-weighted average price is closest to its sale price, matches them all: " \o rec.stderr)
   ELSE
   Chk(Ms # {}, "match", "no valid matching exists (a sell-to-cover cannot be matched) but rows were printed",
   Chk(\E M \in Ms : Explains(rec.out, Expected(B, T, M)), "match",
